@@ -161,6 +161,21 @@ func runC07(c *core.Ctx) {
 				return a[5] < b[5]
 			}, false)
 	case 7: // floats over a wide exponent range, infinities included
+		{
+			// +0.0 and -0.0 are == : stored as one, found as the other (NewSortedOrdered path)
+			nz := math.Copysign(0, -1)
+			so := slices.NewSortedOrdered(3.5, nz, -2, 7)
+			so32 := slices.NewSortedOrdered(float32(3.5), float32(nz), -2, 7)
+			if so.Index(0.0) != 1 || !so.Contains(0.0) || so32.Index(0) != 1 || so.Index(nz) != 1 {
+				c.Violate("Index:signed-zero", fmt.Sprintf("NewSortedOrdered(3.5,-0.0,-2,7): Index(+0.0)=%d Contains(+0.0)=%v Index(-0.0)=%d (float32: %d); -0.0 == +0.0 sits at position 1", so.Index(0.0), so.Contains(0.0), so.Index(nz), so32.Index(0)), nil)
+				return
+			}
+			so.Add(0.0)
+			if so.Index(nz) != 1 || so.Len() != 5 || so.Remove(0.0) != 1 || so.Remove(nz) != 1 || so.Contains(0.0) {
+				c.Violate("Remove:signed-zero", "NewSortedOrdered over floats: with -0.0 and +0.0 stored, Index/Remove of either zero must act on position 1 twice and leave no zero behind", nil)
+				return
+			}
+		}
 		sortedStrict(c, "float64", func(r *core.Rand) float64 {
 			return []float64{0, 0.25, 1, -1, 0.5, 1e300, -1e300, 5e-324, math.Inf(1), math.Inf(-1), 2, 3}[r.Intn(12)]
 		}, func(a, b float64) bool { return a < b }, false)
@@ -617,6 +632,43 @@ func sortedStrict[T comparable](c *core.Ctx, tname string, gen func(*core.Rand) 
 	}
 	if !fullCheck("final") {
 		return
+	}
+	// a successful lookup, then exactly 256 / 512 / 65536 mutations with no lookup in
+	// between, then the same lookup again: whatever a lookup remembers must have been
+	// invalidated, however many mutations a small counter can count
+	if len(model) > 0 && c.Index%6 == 1 {
+		v := model[r.Intn(len(model))]
+		top := model[len(model)-1]
+		stages := []int{256, 512}
+		if c.Index%60 == 1 {
+			stages = append(stages, 65536)
+		}
+		for _, m := range stages { // exactly m mutations between two lookups of v
+			if s.Index(v) != first(v) {
+				fail("Index:wrong", fmt.Sprintf("Index(%v)=%d, first position is %d", v, s.Index(v), first(v)))
+				return
+			}
+			for i := 0; i < m-2; i += 2 {
+				// two mutations that restore the contents: add a copy of the greatest value, remove it again
+				s.Add(top)
+				s.RemoveAt(s.Len() - 1)
+			}
+			// one real change in front of v, so that a remembered position is wrong
+			lowest := model[0]
+			s.Add(lowest)
+			model = append([]T{lowest}, model...)
+			s.Add(lowest)
+			model = append([]T{lowest}, model...)
+			hist = append(hist, fmt.Sprintf("Index(%v), %d mutations without a lookup, 2 Adds in front", v, m))
+			if got, gc := s.Index(v), s.Contains(v); got != first(v) || !gc {
+				fail("Index:stale-after-many-mutations", fmt.Sprintf("Index(%v)=%d Contains=%v after a successful lookup followed by %d mutations and two Adds in front of it; the first position is %d", v, got, gc, m, first(v)))
+				return
+			}
+		}
+		c.Count("lookup_then_mutation_storms", 1)
+		if !fullCheck("storm") {
+			return
+		}
 	}
 	if nontrivial {
 		c.NonTrivial(hh)
